@@ -483,9 +483,14 @@ def rule_partial_binding_validated(check, rule):
     fi = repo.func('_autoforwards:autoforwards_partial')
     check.analysed(fi)
     par = fi.params()[0][0]
-    masks = [c for c in ast.walk(fi.node) if isinstance(c, ast.Call) and norm(c.func).split('.')[-1] in ('_mask', 'mask')]
     plain = [c for c in ast.walk(fi.node) if isinstance(c, ast.Call) and norm(c.func).endswith('_signatures.signature') and c.args
-             and norm(c.args[0]) == par]
+             and norm(c.args[0]) in (par, '%s.func' % par)]
+    plain_names = set(t.id for a in ast.walk(fi.node) if isinstance(a, ast.Assign) and a.value in plain for t in a.targets if isinstance(t, ast.Name))
+    all_masks = [c for c in ast.walk(fi.node) if isinstance(c, ast.Call) and norm(c.func).split('.')[-1] in ('_mask', 'mask')]
+    # (the mask of the function's own signature *is* the validation; the masks judged are those of anything else)
+    validating = [c for c in all_masks if c.args and isinstance(c.args[0], ast.Name) and c.args[0].id in plain_names]
+    masks = [c for c in all_masks if c not in validating]
+    plain = [c for c in plain if norm(c.args[0]) == par] + validating
     key = 'partial-binding-validated'
     st = '%s %s' % (fi.loc(), fi.key)
     if not masks:
